@@ -123,6 +123,11 @@ def tx_menu(w):
         out['E-overlaps-A-and-C'] = world.mk_tx([(oref(o0[0]), K[0]), (oref(o1[0]), K[1])], [(v - 17, K[2])])
         out['second-input-forged'] = world.mk_tx([(oref(o0[0]), K[0]), (oref(o1[0]), K[2])], [(v - 19, K[2])])
         out['first-input-forged'] = world.mk_tx([(oref(o0[0]), K[2]), (oref(o1[0]), K[1])], [(v - 21, K[2])])
+    # an output locked to 64 bytes that are not a curve point: checking any signature against it fails in the key parser, not
+    # with a validation error - the submission must still not be pending afterwards
+    badk = [r for r, x in sorted(U.items()) if x[1] == K[3].pub]
+    if badk:
+        out['spends-output-of-invalid-point-key'] = world.mk_tx([(oref(badk[0]), K[0])], [(5, K[1])])
     out['no-inputs'] = world.mk_tx([], [(5, K[1])])
     out['null-reference'] = world.mk_tx([(world.ref(world.NULL32, 0), K[0])], [(5, K[1])])
     # a transaction that is already mined on the active chain
@@ -175,7 +180,8 @@ def events(w):
     ev = []
     for nm, tx in tx_menu(w).items():
         ev.append(('net:' + nm, 'tx-net', tx))
-        if nm in ('A-valid', 'B-conflicts-with-A', 'E-overlaps-A-and-C', 'bad-signature', 'already-mined', 'overspend'):
+        if nm in ('A-valid', 'B-conflicts-with-A', 'E-overlaps-A-and-C', 'bad-signature', 'already-mined', 'overspend',
+                  'spends-output-of-invalid-point-key'):
             ev.append(('direct:' + nm, 'tx-direct', tx))
     for nm, node in block_menu(w).items():
         ev.append(('relay:' + nm, 'block-relay', node))
